@@ -16,7 +16,23 @@
 //!                `LlamaState` has no file path of its own and does what "rtb" does.  The file lives in the
 //!                request's "dir" (<verif>/scratch/...) and is deleted before the op returns.
 //!       ["collect"]  the collect_registers map itself
+//!
+//! Round 3 additions:
+//!  * names: besides the 28 shared names the register file accepts the Rust-only IMR mirror register
+//!    (`RegName::IMR`, also known to the by-name facade) -- reported by every read-all under "x" -- and, write-only
+//!    for the adapter, out-of-range scratch names `TEMP14`, `TEMP15`, `TEMP255` (`RegName::Temp(idx >= 14)`) and
+//!    `UNKNOWN` (`RegName::Unknown(..)`), which `LlamaState::set_reg` accepts as well.
+//!  * ["exec", HEX, seed]  one instruction through `LlamaExecutor::execute` on the current register file over a
+//!    hash-filled bus (crate::cpu::HashBus, fill seed `seed`, the bytes HEX placed at PC); reports read-all
+//!    before/after.  A failing/panicking instruction is reported as "err", not as a failed history.
+//!  * ["snap", k, "d"|"b"]  take a snapshot into slot k (`collect_registers`, an owned map; "b": packed with
+//!    `pack_registers` at once, TEMPn kept beside the blob); reports read-all at the time the snapshot is taken.
+//!  * ["apply", k, "replace"|"peek"]  apply slot k to a FRESH register file and read everything from it;
+//!    "replace": the fresh file becomes the current one, "peek": it is dropped again.  Reports the source's
+//!    current values ("cur") and the fresh file's values ("after").  An empty slot yields null.
+use crate::cpu::{canon, HashBus};
 use crate::util::err;
+use sc62015_core::llama::eval::LlamaExecutor;
 use sc62015_core::llama::opcodes::RegName;
 use sc62015_core::llama::state::LlamaState;
 use sc62015_core::snapshot::{pack_registers, unpack_registers};
@@ -29,6 +45,19 @@ pub const NAMES: [&str; 28] = [
     "TEMP2", "TEMP3", "TEMP4", "TEMP5", "TEMP6", "TEMP7", "TEMP8", "TEMP9", "TEMP10", "TEMP11",
     "TEMP12", "TEMP13",
 ];
+
+/// Rust-only names that are read back (reported under "x" by every read-all).
+pub const XNAMES: [&str; 1] = ["IMR"];
+/// Rust-only names the adapter only writes (out-of-range scratch registers / unknown operand names).
+pub const WNAMES: [&str; 4] = ["TEMP14", "TEMP15", "TEMP255", "UNKNOWN"];
+const SLOTS: usize = 4;
+
+/// A taken snapshot: the owned register map, or the packed blob + the TEMPs that travel beside it.
+#[derive(Clone)]
+enum Snap {
+    Direct(HashMap<String, u32>),
+    Blob(Vec<u8>, HashMap<String, u32>),
+}
 
 #[derive(Default)]
 pub struct State {
@@ -77,9 +106,11 @@ fn reg_of(name: &str) -> Option<RegName> {
         "F" => RegName::F,
         "FC" => RegName::FC,
         "FZ" => RegName::FZ,
+        "IMR" => RegName::IMR,
+        "UNKNOWN" => RegName::Unknown("UNKNOWN"),
         _ => {
             let idx = name.strip_prefix("TEMP")?.parse::<u8>().ok()?;
-            if idx >= 14 {
+            if idx >= 14 && !WNAMES.contains(&name) {
                 return None;
             }
             RegName::Temp(idx)
@@ -96,7 +127,7 @@ fn flag_reg_name(flag: &str) -> Option<&'static str> {
 }
 
 fn rt_get(rt: &CoreRuntime, name: &str) -> u32 {
-    if name.starts_with("TEMP") {
+    if name.starts_with("TEMP") || name == "UNKNOWN" {
         reg_of(name).map(|r| rt.state.get_reg(r)).unwrap_or(0)
     } else {
         rt.get_reg(name)
@@ -104,7 +135,7 @@ fn rt_get(rt: &CoreRuntime, name: &str) -> u32 {
 }
 
 fn rt_set(rt: &mut CoreRuntime, name: &str, v: u32) {
-    if name.starts_with("TEMP") {
+    if name.starts_with("TEMP") || name == "UNKNOWN" {
         if let Some(r) = reg_of(name) {
             rt.state.set_reg(r, v);
         }
@@ -119,7 +150,71 @@ fn read_all(st: &LlamaState, rt: &CoreRuntime) -> Value {
         .map(|n| st.get_reg(reg_of(n).unwrap()))
         .collect();
     let b: Vec<u32> = NAMES.iter().map(|n| rt_get(rt, n)).collect();
-    json!({"st": a, "rt": b})
+    let xa: Vec<u32> = XNAMES
+        .iter()
+        .map(|n| st.get_reg(reg_of(n).unwrap()))
+        .collect();
+    let xb: Vec<u32> = XNAMES.iter().map(|n| rt_get(rt, n)).collect();
+    json!({"st": a, "rt": b, "x": {"st": xa, "rt": xb}})
+}
+
+fn take_snapshot(state: &LlamaState, blob: bool) -> Snap {
+    let regs = collect_registers(state);
+    if blob {
+        let payload = pack_registers(&regs);
+        let temps: HashMap<String, u32> = regs
+            .iter()
+            .filter(|(k, _)| k.starts_with("TEMP"))
+            .map(|(k, v)| (k.clone(), *v))
+            .collect();
+        Snap::Blob(payload, temps)
+    } else {
+        Snap::Direct(regs)
+    }
+}
+
+fn apply_snapshot(snap: &Snap) -> Result<LlamaState, String> {
+    let mut fresh = LlamaState::new();
+    match snap {
+        Snap::Direct(regs) => apply_registers(&mut fresh, regs),
+        Snap::Blob(payload, temps) => {
+            let mut un = unpack_registers(payload).map_err(|e| format!("unpack_registers: {e}"))?;
+            for (k, v) in temps.iter() {
+                un.insert(k.clone(), *v);
+            }
+            apply_registers(&mut fresh, &un);
+        }
+    }
+    Ok(fresh)
+}
+
+fn parse_hex(s: &str) -> Option<Vec<u8>> {
+    if s.is_empty() || s.len() % 2 != 0 {
+        return None;
+    }
+    (0..s.len())
+        .step_by(2)
+        .map(|i| u8::from_str_radix(s.get(i..i + 2)?, 16).ok())
+        .collect()
+}
+
+/// One instruction on `state`: the bytes are placed at PC on the hash bus, the executor gets the opcode at PC.
+fn exec_one(state: &mut LlamaState, bus: &mut HashBus, bytes: &[u8], seed: u32) -> Value {
+    bus.seed = seed;
+    let pc = state.pc();
+    for (i, b) in bytes.iter().enumerate() {
+        bus.over.insert(canon(pc.wrapping_add(i as u32)), *b);
+    }
+    let opcode = bus.peek(pc);
+    let mut exec = LlamaExecutor::new();
+    let r = std::panic::catch_unwind(std::panic::AssertUnwindSafe(|| {
+        exec.execute(opcode, state, bus)
+    }));
+    match r {
+        Ok(Ok(_)) => Value::Null,
+        Ok(Err(e)) => json!(e),
+        Err(_) => json!("panic"),
+    }
 }
 
 fn map_to_json(m: &HashMap<String, u32>) -> Value {
@@ -166,6 +261,10 @@ fn run_seq(
         *restored = false;
     }
     rt.state = LlamaState::new();
+    let mut bus_st = HashBus::new(0);
+    let mut bus_rt = HashBus::new(0);
+    let mut slots_st: Vec<Option<Snap>> = vec![None; SLOTS];
+    let mut slots_rt: Vec<Option<Snap>> = vec![None; SLOTS];
     let mut out = Vec::with_capacity(ops.len());
     for op in ops {
         let arr = op.as_array().ok_or("op is not an array")?;
@@ -220,6 +319,51 @@ fn run_seq(
                 let after = read_all(&st, rt);
                 out.push(json!({"before": before, "after": after, "blob": ""}));
             }
+            "exec" => {
+                let hex = arr.get(1).and_then(|v| v.as_str()).ok_or("exec bytes")?;
+                let seed = arr.get(2).and_then(|v| v.as_u64()).unwrap_or(0) as u32;
+                let bytes = parse_hex(hex).ok_or("exec bytes are not hex")?;
+                let before = read_all(&st, rt);
+                let e_st = exec_one(&mut st, &mut bus_st, &bytes, seed);
+                let e_rt = exec_one(&mut rt.state, &mut bus_rt, &bytes, seed);
+                let after = read_all(&st, rt);
+                out.push(json!({"before": before, "after": after, "err": {"st": e_st, "rt": e_rt}}));
+            }
+            "snap" => {
+                let k = arr.get(1).and_then(|v| v.as_u64()).ok_or("snap slot")? as usize;
+                let kind = arr.get(2).and_then(|v| v.as_str()).ok_or("snap kind")?;
+                if k >= SLOTS {
+                    return Err(format!("snapshot slot {k} out of range"));
+                }
+                let taken = read_all(&st, rt);
+                slots_st[k] = Some(take_snapshot(&st, kind == "b"));
+                slots_rt[k] = Some(take_snapshot(&rt.state, kind == "b"));
+                out.push(taken);
+            }
+            "apply" => {
+                let k = arr.get(1).and_then(|v| v.as_u64()).ok_or("apply slot")? as usize;
+                let mode = arr.get(2).and_then(|v| v.as_str()).ok_or("apply mode")?;
+                if k >= SLOTS {
+                    return Err(format!("snapshot slot {k} out of range"));
+                }
+                match (&slots_st[k], &slots_rt[k]) {
+                    (Some(s_st), Some(s_rt)) => {
+                        let cur = read_all(&st, rt);
+                        let fresh_st = apply_snapshot(s_st)?;
+                        let fresh_rt = apply_snapshot(s_rt)?;
+                        let old_st = std::mem::replace(&mut st, fresh_st);
+                        let old_rt = std::mem::replace(&mut rt.state, fresh_rt);
+                        let after = read_all(&st, rt);
+                        if mode != "replace" {
+                            st = old_st;
+                            rt.state = old_rt;
+                        }
+                        out.push(json!({"cur": cur, "after": after}));
+                    }
+                    _ => out.push(Value::Null),
+                }
+            }
+            "host" => out.push(Value::Null),
             "collect" => {
                 out.push(json!({"st": map_to_json(&collect_registers(&st)),
                                 "rt": map_to_json(&collect_registers(&rt.state))}));
@@ -232,7 +376,7 @@ fn run_seq(
 
 pub fn handle(verb: &str, req: &Value, sess: &mut State) -> Value {
     match verb {
-        "names" => json!({"ok": true, "names": NAMES}),
+        "names" => json!({"ok": true, "names": NAMES, "xnames": XNAMES, "wnames": WNAMES}),
         "run" => {
             let seqs = match req.get("seqs").and_then(|v| v.as_array()) {
                 Some(s) => s,
